@@ -6,3 +6,28 @@
       (not (= (f40_MAV c) #x00)) (not (= (f40_MAC c) #x00)) (not (= (f40_MAT c) #x00)) (not (= (f40_MPR c) #x00))
       (not (= (f40_MUI c) #x00)) (not (= (f40_MVC c) #x00)) (not (= (f40_MVI c) #x00)) (not (= (f40_MVA c) #x00))
       (not (= (f40_MSC c) #x00)) (not (= (f40_MSI c) #x00)) (not (= (f40_MSA c) #x00))))
+
+; ---- ParseVector (C01, C06, C13, C18): reference fold over the elements of a v4.0 vector ----
+; v is the text after the 8-byte header.  An element starts at a '/' at position s and extends to the
+; next '/' at a position > s (or the end).  pos is the index (in the mandated metric order) of the next
+; metric that may appear: base metrics must appear one after the other, later metrics may be skipped
+; but never go back.  The first defect decides the error.
+(declare-datatypes ((PRes40 0)) (((mk-pres40 (p.err Err) (p.pos Int) (p.vals (Array Int (_ BitVec 8)))))))
+(define-fun noVals () (Array Int (_ BitVec 8)) ((as const (Array Int (_ BitVec 8))) #x00))
+; fold40 is a recursive definition with measure (s.len v) - s (nextsep v (s+1) > s); see fold40_def.
+(declare-fun fold40 (Str Int Int (Array Int (_ BitVec 8))) PRes40)
+(define-fun fold40_def ((v Str) (s Int) (pos Int) (vals (Array Int (_ BitVec 8)))) Bool
+  (= (fold40 v s pos vals)
+  (ite (or (< s 0) (>= s (s.len v))) (mk-pres40 Nil pos vals)
+  (ite (not (= (select (s.arr v) (+ (s.off v) s)) #x2f)) (mk-pres40 ErrInvalidMetricValue pos vals)
+  (let ((pt (substr v (+ s 1) (nextsep v (+ s 1)))))
+  (let ((m (midx40 (elemkey pt))))
+  (ite (or (and (< pos NMAND40) (not (= m pos))) (and (>= pos NMAND40) (< m pos))) (mk-pres40 ErrInvalidMetricOrder pos vals)
+  (ite (= (vcode40 m (elemval pt)) #xff) (mk-pres40 ErrInvalidMetricValue pos vals)
+  (fold40 v (nextsep v (+ s 1)) (+ m 1) (store vals m (vcode40 m (elemval pt))))))))))))
+(define-fun parseRes40 ((vector Str)) PRes40
+  (ite (not (hasHeader40 vector)) (mk-pres40 ErrInvalidCVSSHeader 0 noVals)
+  (let ((r (fold40 (substr vector HDRLEN40 (s.len vector)) 0 0 noVals)))
+  (ite (not (= (p.err r) Nil)) r
+  (ite (< (p.pos r) NMAND40) (mk-pres40 ErrTooShortVector (p.pos r) (p.vals r))
+  r)))))
